@@ -114,7 +114,12 @@ class Symbol(Node):  # pylint: disable=too-few-public-methods
     """
 
     def get_str_repr(self, sons_repr):
-        return str(self.value)
+        text = str(self.value)
+        if text in EPSILON_SYMBOLS or \
+                (text and (text[0] in SPECIAL_SYMBOLS or text[0] == "\\")):
+            # The symbol was written with an escape: it is printed with it
+            return "\\" + text
+        return text
 
     def get_cfg_rules(self, current_symbol, sons):
         """ Gets the rules for a context-free grammar to represent the \
@@ -207,6 +212,10 @@ class Empty(Symbol):  # pylint: disable=too-few-public-methods
 
     def __init__(self):
         super().__init__("Empty")
+
+    def get_str_repr(self, sons_repr):
+        # The empty language is written with the empty text
+        return ""
 
     def get_cfg_rules(self, current_symbol, sons):
         return []
